@@ -176,9 +176,7 @@ func calleeName(c *Ctx, call *ssa.CallCommon) string {
 	}
 	k := ir.FuncKey(callee)
 	// generic instantiations: strip type arguments
-	if i := strings.Index(k, "["); i > 0 {
-		k = k[:i]
-	}
+	k = stripTypeArgs(k)
 	// a method called on a struct field: which field (two maps cleared by the same Clear are two steps)
 	if callee.Signature.Recv() != nil && len(call.Args) > 0 {
 		recv := call.Args[0]
@@ -190,6 +188,23 @@ func calleeName(c *Ctx, call *ssa.CallCommon) string {
 		}
 	}
 	return k
+}
+
+// stripTypeArgs removes every balanced [...] group: "(*bart.Table[V]).Supernets" -> "(*bart.Table).Supernets".
+func stripTypeArgs(k string) string {
+	var b strings.Builder
+	depth := 0
+	for _, r := range k {
+		switch {
+		case r == '[':
+			depth++
+		case r == ']' && depth > 0:
+			depth--
+		case depth == 0:
+			b.WriteRune(r)
+		}
+	}
+	return b.String()
 }
 
 // storeName: a store into a field of an existing object (not a local being built) is an effect too.
@@ -313,9 +328,7 @@ func (c *Ctx) ruleCallRatchet(rule string, pkgs []string, fileFilter func(file s
 	for _, fn := range c.P.Funcs {
 		if fn.Parent() == nil {
 			k := ir.FuncKey(fn)
-			if i := strings.Index(k, "["); i > 0 {
-				k = k[:i]
-			}
+			k = stripTypeArgs(k)
 			exists[k] = true
 		}
 	}
@@ -348,9 +361,7 @@ func (c *Ctx) ruleCallRatchet(rule string, pkgs []string, fileFilter func(file s
 		seen := map[*ssa.Function]bool{fn: true}
 		for f := range direct {
 			k := ir.FuncKey(f)
-			if i := strings.Index(k, "["); i > 0 {
-				k = k[:i]
-			}
+			k = stripTypeArgs(k)
 			isNew := true
 			for rk := range recorded {
 				if rk == k || strings.HasPrefix(rk, k+"@") {
